@@ -291,6 +291,8 @@ def _pair_labels(case):
     return sorted(out)
 
 
+REQUIRED_LABELS = ['flux_relations/kind:equal', 'flux_relations/kind:rest', 'flux_relations/kind:sonic', 'flux_relations/kind:mirror', 'flux_relations/kind:super+', 'flux_relations/kind:super-', 'flux_relations/ratio>1e3', 'flux_relations/upwind+', 'flux_relations/upwind-', 'flux_relations/face:x', 'flux_relations/face:y', 'flux_relations/antisymmetric']
+
 SUBCHECKS = [
     SubCheck("flux_relations", check, strategy=strat, examples={"quick": 700, "thorough": 5000}, shards={"quick": 4, "thorough": 16}),
 ]
